@@ -74,6 +74,33 @@ Definition check_tcase (c : tcase) : bool :=
    database yields the same tables.  Maps, ports, steps and dependency rows are compared by name / as sets (dict
    insertion order, the interleaving of concurrent INSERTs and SQLite's row order are not modelled); step ids are
    matched through the step names. *)
+From SF Require Export Persist.CfgModel.
+
+Definition ostr_eqb (a b : option string) : bool := opt_eqb String.eqb a b.
+Definition pdeploy_eqb (a b : pdeploy) : bool :=
+  String.eqb (dp_name a) (dp_name b) && String.eqb (dp_type a) (dp_type b) && jv_eqb (dp_config a) (dp_config b) &&
+  Bool.eqb (dp_external a) (dp_external b) && Bool.eqb (dp_lazy a) (dp_lazy b) &&
+  String.eqb (fst (fst (dp_policy a))) (fst (fst (dp_policy b))) &&
+  String.eqb (snd (fst (dp_policy a))) (snd (fst (dp_policy b))) && jv_eqb (snd (dp_policy a)) (snd (dp_policy b)) &&
+  ostr_eqb (dp_workdir a) (dp_workdir b) &&
+  opt_eqb (fun x y => String.eqb (fst x) (fst y) && ostr_eqb (snd x) (snd y)) (dp_wraps a) (dp_wraps b).
+Definition ptarget_eqb (a b : ptarget) : bool :=
+  match a, b with
+  | PTarget d l s w, PTarget d' l' s' w' => pdeploy_eqb d d' && Z.eqb l l' && ostr_eqb s s' && String.eqb w w'
+  | PLocal w, PLocal w' => String.eqb w w'
+  | _, _ => false
+  end.
+Definition pfilter_eqb (a b : pfilter) : bool :=
+  String.eqb (f_name a) (f_name b) && String.eqb (f_type a) (f_type b) && jv_eqb (f_config a) (f_config b).
+Definition pbinding_eqb (a b : pbinding) : bool :=
+  list_eqb ptarget_eqb (b_targets a) (b_targets b) && list_eqb pfilter_eqb (b_filters a) (b_filters b).
+Definition tgrow_eqb (a b : tgrow) : bool :=
+  Bool.eqb (tg_local a) (tg_local b) && Nat.eqb (tg_dep a) (tg_dep b) && Z.eqb (tg_locations a) (tg_locations b) &&
+  ostr_eqb (tg_service a) (tg_service b) && String.eqb (tg_workdir a) (tg_workdir b).
+Definition cdb_eqb (a b : cdb) : bool :=
+  list_eqb pdeploy_eqb (c_dep a) (c_dep b) && list_eqb tgrow_eqb (c_tgt a) (c_tgt b) && list_eqb pfilter_eqb (c_flt a) (c_flt b).
+
+
 From SF Require Export Persist.WfModel.
 
 Definition smap_eqb (a b : list (string * string)) : bool :=
@@ -122,6 +149,8 @@ Definition skind_eqb (a b : skind) : bool :=
   | KPlain x, KPlain y => String.eqb x y
   | KJobIn x, KJobIn y => String.eqb x y
   | KExecute x, KExecute y => smap_eqb x y
+  | KDeploy x, KDeploy y => pdeploy_eqb x y
+  | KSchedule b p ds, KSchedule b' p' ds' => pbinding_eqb b b' && String.eqb p p' && list_eqb jv_eqb ds ds'
   | _, _ => false
   end.
 
@@ -147,21 +176,29 @@ Definition dparams_eqb (a b : dparams) : bool :=
   | DPlain x, DPlain y => String.eqb x y
   | DJobIn c x, DJobIn c' y => String.eqb c c' && Nat.eqb x y
   | DExecute x m, DExecute y m' => Nat.eqb x y && smap_eqb m m'
+  (* configuration ids are compared through what they load to (canon_steps), not as numbers *)
+  | DDeploy _ cp, DDeploy _ cp' => Nat.eqb cp cp'
+  | DSchedule ts fs jp cps p ds, DSchedule ts' fs' jp' cps' p' ds' =>
+      Nat.eqb (length ts) (length ts') && Nat.eqb (length fs) (length fs') && Nat.eqb jp jp' &&
+      set_eqb (fun a b => String.eqb (fst a) (fst b) && Nat.eqb (snd a) (snd b)) cps cps' && String.eqb p p' &&
+      list_eqb jv_eqb ds ds'
   | _, _ => false
   end.
 
 Definition dep_eqb (a b : nat * bool * string) : bool :=
   Nat.eqb (fst (fst a)) (fst (fst b)) && Bool.eqb (snd (fst a)) (snd (fst b)) && String.eqb (snd a) (snd b).
 
-Definition canon_steps (d : wdb) : list (srow * list (nat * bool * string)) :=
-  map (fun ir => (snd ir, map (fun r => (d_port r, d_in r, d_name r))
-                              (filter (fun r => Nat.eqb (d_step r) (fst ir)) (t_dep d))))
+Definition canon_steps (d : wdb) : list (srow * option skind * list (nat * bool * string)) :=
+  map (fun ir => (snd ir, load_kind (t_port d) (t_cfg d) (sr_wf (snd ir)) (sr_params (snd ir)),
+                  map (fun r => (d_port r, d_in r, d_name r))
+                      (filter (fun r => Nat.eqb (d_step r) (fst ir)) (t_dep d))))
       (with_ids 0 (t_step d)).
 
-Definition cstep_eqb (a b : srow * list (nat * bool * string)) : bool :=
-  String.eqb (sr_name (fst a)) (sr_name (fst b)) && Nat.eqb (sr_wf (fst a)) (sr_wf (fst b)) &&
-  Z.eqb (sr_status (fst a)) (sr_status (fst b)) && dparams_eqb (sr_params (fst a)) (sr_params (fst b)) &&
-  set_eqb dep_eqb (snd a) (snd b).
+Definition cstep_eqb (a b : srow * option skind * list (nat * bool * string)) : bool :=
+  let ra := fst (fst a) in let rb := fst (fst b) in
+  String.eqb (sr_name ra) (sr_name rb) && Nat.eqb (sr_wf ra) (sr_wf rb) &&
+  Z.eqb (sr_status ra) (sr_status rb) && dparams_eqb (sr_params ra) (sr_params rb) &&
+  opt_eqb skind_eqb (snd (fst a)) (snd (fst b)) && set_eqb dep_eqb (snd a) (snd b).
 
 Definition wrow_eqb (a b : wrow) : bool :=
   String.eqb (wr_name a) (wr_name b) && jv_eqb (wr_config a) (wr_config b) && smap_eqb (wr_inp a) (wr_inp b) &&
@@ -171,7 +208,13 @@ Definition prow_eqb (a b : prow) : bool :=
 
 Definition wdb_eqb (a b : wdb) : bool :=
   list_eqb wrow_eqb (t_wf a) (t_wf b) && list_eqb prow_eqb (t_port a) (t_port b) &&
-  set_eqb cstep_eqb (canon_steps a) (canon_steps b) && Nat.eqb (length (t_dep a)) (length (t_dep b)).
+  set_eqb cstep_eqb (canon_steps a) (canon_steps b) && Nat.eqb (length (t_dep a)) (length (t_dep b)) &&
+  (* configuration tables up to renaming of ids: same deployments, same targets (with the deployment they load),
+     same filters, as multisets *)
+  set_eqb pdeploy_eqb (c_dep (t_cfg a)) (c_dep (t_cfg b)) &&
+  set_eqb (opt_eqb ptarget_eqb) (map (fun i => load_target (t_cfg a) (S i)) (seq 0 (length (c_tgt (t_cfg a)))))
+                                (map (fun i => load_target (t_cfg b) (S i)) (seq 0 (length (c_tgt (t_cfg b))))) &&
+  set_eqb pfilter_eqb (c_flt (t_cfg a)) (c_flt (t_cfg b)).
 
 Inductive wcase :=
 | CWf (orig : pwf) (db : wdb) (wid : nat) (loaded : option pwf).
@@ -180,7 +223,7 @@ Definition check_wcase (c : wcase) : bool :=
   match c with
   | CWf orig db wid loaded =>
       opt_eqb pwf_eqb (load_wf db wid) loaded &&
-      match save_wf orig (mkwdb [] [] [] []) with
+      match save_wf orig (mkwdb [] [] [] [] (mkcdb [] [] [])) with
       | Some (i, d) => Nat.eqb i wid && wdb_eqb d db
       | None => false
       end
@@ -190,32 +233,6 @@ Definition check_wcase (c : wcase) : bool :=
    CCfg orig db ids loaded: the binding [orig] was saved by the real BindingConfig.save into empty deployment /
    target / filter tables, which afterwards are [db]; it returned [ids]; the real BindingConfig.load produced
    [loaded]. *)
-From SF Require Export Persist.CfgModel.
-
-Definition ostr_eqb (a b : option string) : bool := opt_eqb String.eqb a b.
-Definition pdeploy_eqb (a b : pdeploy) : bool :=
-  String.eqb (dp_name a) (dp_name b) && String.eqb (dp_type a) (dp_type b) && jv_eqb (dp_config a) (dp_config b) &&
-  Bool.eqb (dp_external a) (dp_external b) && Bool.eqb (dp_lazy a) (dp_lazy b) &&
-  String.eqb (fst (fst (dp_policy a))) (fst (fst (dp_policy b))) &&
-  String.eqb (snd (fst (dp_policy a))) (snd (fst (dp_policy b))) && jv_eqb (snd (dp_policy a)) (snd (dp_policy b)) &&
-  ostr_eqb (dp_workdir a) (dp_workdir b) &&
-  opt_eqb (fun x y => String.eqb (fst x) (fst y) && ostr_eqb (snd x) (snd y)) (dp_wraps a) (dp_wraps b).
-Definition ptarget_eqb (a b : ptarget) : bool :=
-  match a, b with
-  | PTarget d l s w, PTarget d' l' s' w' => pdeploy_eqb d d' && Z.eqb l l' && ostr_eqb s s' && String.eqb w w'
-  | PLocal w, PLocal w' => String.eqb w w'
-  | _, _ => false
-  end.
-Definition pfilter_eqb (a b : pfilter) : bool :=
-  String.eqb (f_name a) (f_name b) && String.eqb (f_type a) (f_type b) && jv_eqb (f_config a) (f_config b).
-Definition pbinding_eqb (a b : pbinding) : bool :=
-  list_eqb ptarget_eqb (b_targets a) (b_targets b) && list_eqb pfilter_eqb (b_filters a) (b_filters b).
-Definition tgrow_eqb (a b : tgrow) : bool :=
-  Bool.eqb (tg_local a) (tg_local b) && Nat.eqb (tg_dep a) (tg_dep b) && Z.eqb (tg_locations a) (tg_locations b) &&
-  ostr_eqb (tg_service a) (tg_service b) && String.eqb (tg_workdir a) (tg_workdir b).
-Definition cdb_eqb (a b : cdb) : bool :=
-  list_eqb pdeploy_eqb (c_dep a) (c_dep b) && list_eqb tgrow_eqb (c_tgt a) (c_tgt b) && list_eqb pfilter_eqb (c_flt a) (c_flt b).
-
 Inductive fcase :=
 | CCfg (orig : pbinding) (db : cdb) (tids fids : list nat) (loaded : option pbinding).
 
